@@ -13,6 +13,7 @@ theorem drel_declare {g : Globals} {R : Ty} {s : St} {ss : SpecSt} (hr : DRel g 
     (hfresh : v.innerName ∉ s.root.innerNames)
     (habs : abstractStep s.abs i = ({ s.abs with decls := s.abs.decls ++ [v.innerName] } : AbsSt).emit d)
     (hw : i.writes = none) (hrd : ∀ q ∈ i.reads, q ≤ s.curReg ∧ s.abs.bound q = true)
+    (hdecl : i.declares = some v)
     (hstep : tyStepEnv s.tenv i = { s.tenv with decls := v :: s.tenv.decls })
     (hty : ∀ b ∈ tyStepBad (cOkOf g) (fOkOf g) R s.tenv i, b.known i = true) :
     DRel g R (((s.insertValue n v).registerInner v.innerName).push i) ((ss.declare n v.ty v.mutable).1.emit d) := by
@@ -33,7 +34,10 @@ theorem drel_declare {g : Globals} {R : Ty} {s : St} {ss : SpecSt} (hr : DRel g 
     have := hr.scope.dn w (declOk_mem hw')
     rw [hev] at this
     exact hfresh this
-  refine ⟨⟨?_, ?_, ?_, ?_⟩, ?_, ?_, ?_, ?_, ?_⟩
+  have hdts : (((s.insertValue n v).registerInner v.innerName).push i).dts =
+      (mapHead (DT.setValues (assocInsert n v)) s.dts).map (DT.addDecl v) := by
+    rw [dts_push_decl _ v _ hdecl, dts_registerInner, dts_insertValue]
+  refine ⟨⟨?_, ?_, ?_, ?_⟩, ?_, ?_, ?_, ?_, ?_, ?_, ?_⟩
   rotate_left 7
   · apply rd_push_nowrite (rd_insertRegister hr.rd _ _ _) _ hw
     intro q hq
@@ -45,6 +49,39 @@ theorem drel_declare {g : Globals} {R : Ty} {s : St} {ss : SpecSt} (hr : DRel g 
       exact hty bb hb
     · unfold St.registerInner St.mapFrames St.insertValue St.mapCur
       cases s.inner <;> rfl
+  · rw [hdts]
+    have hfresh' : ∀ t' ∈ s.dts, v ∉ t'.decls := fun t' ht' hx => hfresh (hr.vreg t' ht' _ hx)
+    have hvi := hr.vinv
+    cases hd1 : s.dts with
+    | nil => exact absurd (by unfold St.dts at hd1; simpa using hd1) (frames_ne_nil s)
+    | cons t ts =>
+      rw [hd1] at hvi hfresh'
+      obtain ⟨fr, frs, k, ks, hds, hks, hf, hin, hrest⟩ := hvi.inv_cons
+      have := framesOk_declare (FramesOk.cons hf hin hrest) n v ss.next hfresh'
+      unfold SpecSt.declare SpecSt.emit
+      dsimp only [mapHead, List.map_cons]
+      rw [hds, hks]
+      exact this
+  · rw [hdts, hroot]
+    intro t ht x hx
+    rw [List.mem_map] at ht
+    obtain ⟨t0, ht0, rfl⟩ := ht
+    rw [DT.addDecl_decls, List.mem_append] at hx
+    rw [mem_setInsert]
+    rcases hx with hx | hx
+    · right
+      cases hd1 : s.dts with
+      | nil => rw [hd1] at ht0; simp [mapHead] at ht0
+      | cons t ts =>
+        rw [hd1] at ht0
+        simp only [mapHead, List.mem_cons] at ht0
+        rcases ht0 with rfl | ht0
+        · rw [DT.setValues_decls] at hx
+          exact hr.vreg t (by rw [hd1]; simp) x hx
+        · exact hr.vreg t0 (by rw [hd1]; simp [ht0]) x hx
+    · left
+      simp only [List.mem_singleton] at hx
+      rw [hx]
   · unfold ScopeRel
     rw [vals_push, vals_registerInner]
     obtain ⟨x, rest, hx, hins⟩ := vals_insertValue n v s
@@ -128,7 +165,7 @@ theorem den_initParams {g : Globals} {R : Ty} : ∀ (ps : List (Name × ATy)) (s
         have := hkeys n hc; rw [hlook] at this; simp at this
       have hstep := drel_declare hr n ⟨n, t.toTy, false, false, false⟩ (.fnArg ⟨n, t.toTy, false, false, false⟩ ⟨n, t.toTy⟩)
         (.param s.abs.decls.length) hfresh (by simp [abstractStep, AbsSt.emit]) rfl (fun q hq => by simp [Instr.reads] at hq)
-        rfl (fun b hb => by simp [tyStepBad] at hb)
+        rfl rfl (fun b hb => by simp [tyStepBad] at hb)
       have hnext : (.param s.abs.decls.length : DStmt) = .param (ss.declare n t.toTy false).2 := by
         rw [hr.next]; rfl
       rw [hnext] at hstep
@@ -257,13 +294,22 @@ theorem den_bodyStmts (hg : GlobRel g rg) (hn : GNames g) (resTy : Ty) : ∀ (l 
 /-! ### The whole function -/
 
 theorem drel_init {g : Globals} {R : Ty} : DRel g R St.init SpecSt.init := by
-  refine ⟨⟨?_, ?_, ?_, ?_⟩, rfl, rfl, ?_, ?_, ?_⟩
+  refine ⟨⟨?_, ?_, ?_, ?_⟩, rfl, rfl, ?_, ?_, ?_, ?_, ?_⟩
   rotate_left 4
   · intro n hn; cases hn
   · refine ⟨by intro b hb; simp [St.init] at hb, rfl, ?_⟩
     intro pre i post h
     simp [St.init, Block.fresh] at h
   · intro pb hpb; simp [St.init, Block.fresh, typedGo] at hpb
+  · have : (St.init).dts = [.node [] [] []] := by
+      unfold St.dts St.frames; simp [St.init, dt_def, Block.fresh, declValues, Block.dtL]
+    rw [this]
+    exact FramesOk.cons ⟨rfl, rfl, by unfold valuesOkDL; rfl, by intro c hc; cases hc⟩ (by intro x hx; cases hx) (FramesOk.nil _)
+  · have : (St.init).dts = [.node [] [] []] := by
+      unfold St.dts St.frames; simp [St.init, dt_def, Block.fresh, declValues, Block.dtL]
+    rw [this]
+    intro t ht x hx
+    simp at ht; subst ht; cases hx
   · unfold ScopeRel St.vals St.frames
     exact ValsRel.cons (fun n => by simp [St.init, Block.fresh, assocGet, rlookup]) ValsRel.nil
   · show DVals [] [[]] [[]]
@@ -278,7 +324,9 @@ root stack is the statement list the source denotes -/
 theorem T2_function (hg : GlobRel g rg) (hn : GNames g) (f : FnDecl) (hok : BodyStmt.anaOKL f.body = true)
     (he : (functionBody g f).errors = []) :
     abstractStack (functionBody g f).root.context = specStmts false rg f ∧ RdInv (functionBody g f) ∧
-    TOK g f.result.toTy (functionBody g f) := by
+    TOK g f.result.toTy (functionBody g f) ∧
+    FramesOk (functionBody g f).dts [] (specBody false rg f.body (specParams f.params SpecSt.init)).dscope
+      (specBody false rg f.body (specParams f.params SpecSt.init)).kids := by
   unfold functionBody at he ⊢
   unfold specStmts
   dsimp only at he ⊢
@@ -305,6 +353,6 @@ theorem T2_function (hg : GlobRel g rg) (hn : GNames g) (f : FnDecl) (hok : Body
       simp [St.addErr] at this
     · rfl
   subst hrc
-  exact ⟨r2.out, r2.rd, r2.tok⟩
+  exact ⟨r2.out, r2.rd, r2.tok, r2.vinv⟩
 
 end SemVerif
